@@ -1139,7 +1139,7 @@ class Sections:
         self.run_stream("seq", role, items, chunkings(r, items, data, self.quick), ["seq", role, i], only_ci, sample=(i < 2 and role == "server"))
 
     def seq(self):
-        n = 600 if self.quick else 90000
+        n = 600 if self.quick else 50000
         for j in range(n):
             i = self.shard["index"] + j * self.shard["of"]
             for role in ("server", "client"):
